@@ -4,8 +4,10 @@ pub mod c01;
 pub mod c03;
 pub mod c13;
 pub mod c24;
+pub mod c27;
 pub mod c24_table;
 pub mod hist;
+pub mod iter;
 pub mod lower;
 
 pub fn all() -> Vec<Box<dyn Prop>> {
@@ -19,6 +21,10 @@ pub fn all() -> Vec<Box<dyn Prop>> {
         Box::new(hist::Hist { id: "C29" }),
         Box::new(c24::C24),
         Box::new(c13::C13),
+        Box::new(c27::C27),
+        Box::new(c27::C28),
+        Box::new(iter::Iter { id: "C25" }),
+        Box::new(iter::Iter { id: "C26" }),
         Box::new(lower::Lower { id: "C15" }),
         Box::new(lower::Lower { id: "C21" }),
         Box::new(lower::Lower { id: "C22" }),
